@@ -289,6 +289,8 @@ def wrap_phase(IP, ncycles=1, mode='2pi'):
 
     if mode == '2pi':
         phases = (IP) % (ncycles * 2 * np.pi)
+        # A tiny negative input rounds to exactly 2pi, keep the range half-open
+        phases = phases - (ncycles * 2 * np.pi) * (phases >= ncycles * 2 * np.pi)
     elif mode == '-pi2pi':
         phases = (IP + (np.pi * ncycles)) % (ncycles * 2 * np.pi) - (np.pi * ncycles)
 
